@@ -743,6 +743,17 @@ theorem read_then_write_lock_incoherent :
         (sharedOf stA "r" wA)) badSched
      coherentView exOracle (view c.shared) = true) := by decide
 
+-- mutators_serializable's hypotheses hold of the regenerated programs with the concrete steps (`exec_local`,
+-- `router_locks_discipline`), and the conclusion is not vacuous: under `badSched` (the update is blocked at the write lock while
+-- the AddRoute is inside) followed by the rest of the update, both calls go through their critical section — first the AddRoute,
+-- then the complete update — and the shared state is the sequential one of that order
+example :
+    let calls := callOf (fun t => if t = 0 then MOp.addRoute "a.b" (rt "y") else MOp.update cfgB)
+    let c := runSched (exec exOracle) (initConf calls (sharedOf stA "r" wA)) (badSched ++ List.replicate 9 1)
+    (∀ t, t < 2 → disciplined (calls t).prog = true) ∧ c.done = [0, 1] ∧ c.writer = none ∧
+    view c.shared = view (serialS (exec exOracle) calls [0, 1] (sharedOf stA "r" wA)) ∧
+    (view c.shared).stored.vhosts.map (fun v => v.routes.map (·.id)) = [["u"]] := by decide
+
 -- concurrent_coherent_routes' hypotheses: an existing router in a reachable state, calls that name it
 example : Inv exOracle stA ∧ stA.wrappers "r" = some wA ∧
     (∀ t, named "r" ((fun t => if t = 0 then MOp.addRoute "a.b" (rt "y") else MOp.update cfgB) t)) :=
